@@ -47,6 +47,7 @@ type Harness struct {
 	EndMsgs     map[string]int
 	MaxDec      int
 	budgetHit   bool
+	work        [][]int64
 	pathCount   int
 }
 
@@ -78,7 +79,8 @@ type Engine struct {
 
 	mu          sync.Mutex
 	cond        *sync.Cond
-	work        []workItem
+	queued      int
+	rr          int
 	outstanding int
 	solverStats SolverStats
 	nworkers    int
@@ -309,24 +311,37 @@ func (eng *Engine) Load(cfg LoadConfig) error {
 
 func (eng *Engine) push(h *Harness, prefix []int64) {
 	eng.mu.Lock()
-	eng.work = append(eng.work, workItem{h, prefix})
+	h.work = append(h.work, prefix)
+	eng.queued++
 	eng.outstanding++
 	eng.mu.Unlock()
 	eng.cond.Signal()
 }
 
+// pop takes the next work item, round-robin over the harnesses (so that one
+// expensive harness cannot starve the others of the exploration budget) and
+// depth-first within a harness.
 func (eng *Engine) pop() (workItem, bool) {
 	eng.mu.Lock()
 	defer eng.mu.Unlock()
-	for len(eng.work) == 0 {
+	for eng.queued == 0 {
 		if eng.outstanding == 0 {
 			return workItem{}, false
 		}
 		eng.cond.Wait()
 	}
-	it := eng.work[len(eng.work)-1]
-	eng.work = eng.work[:len(eng.work)-1]
-	return it, true
+	n := len(eng.harnesses)
+	for k := 0; k < n; k++ {
+		h := eng.harnesses[(eng.rr+k)%n]
+		if m := len(h.work); m > 0 {
+			it := workItem{h, h.work[m-1]}
+			h.work = h.work[:m-1]
+			eng.queued--
+			eng.rr = (eng.rr + k + 1) % n
+			return it, true
+		}
+	}
+	panic("queued > 0 but no work found")
 }
 
 func (eng *Engine) done() {
